@@ -149,7 +149,9 @@ def main():
                     note("unlink_before_relink" if scenario == "recommit" else None, "%s: /p, committed before the crash, no longer loads: %s" % (tag, type(e).__name__))
                 # the interrupted operation is simply run again
                 p2 = subprocess.run([sys.executable, "-c", CHILD, "0", scenario, base], capture_output=True, text=True, env=env, timeout=120)
-                if p2.returncode != 0:
+                if p2.returncode != 0 and "DONE" not in p2.stdout and "Traceback" not in p2.stderr:
+                    raise RuntimeError("the re-run process died without a Python error: " + p2.stderr[-300:])
+                if p2.returncode != 0 and "DONE" not in p2.stdout:
                     note("partial_state_blocks_rerun", "%s: running the operation again fails: %s" % (tag, p2.stderr.strip().split("\n")[-1][:160]))
                 elif scenario == "keep":
                     st = LocalFileStore(os.path.join(base, "int"), os.path.join(base, "data"))
